@@ -125,12 +125,6 @@ def renderEvent (outs : List Out) (r : Option Outcome) : String :=
   let items := outs.map renderOut ++ (match r with | some o => [renderOutcome o] | none => [])
   if items.isEmpty then "-" else ",".intercalate (sortStr items)
 
-def Op.pending : Op → List Nat
-  | .const _ _ => []
-  | .leaf i ph _ => if ph = .running then [i] else []
-  | .un _ c _ _ => c.pending
-  | .bin _ a b _ => a.pending ++ b.pending
-
 def specsOf (l : List (Nat × LeafSpec)) (i : Nat) : LeafSpec :=
   match l.lookup i with
   | some s => s
